@@ -345,6 +345,31 @@ def run_config(chk, ctx, name):
                    "the exact-length comparison in %s does not depend on the lengths of the parsed parts" % pf.path, where=pf.loc(g[0].block))
 
 
+def leaf_guard_count(F, A):
+    """Number of leaf-range guards (candidate generator + LMS signature parser); used by the PF engine."""
+    an = Anchors(F, A)
+    cf = an.cand_fn
+    walk_blocks = [b for b, t in cf.calls() if cf.in_cycle(b) and not cf.blocks[b]["cleanup"]]
+
+    def cdep(d):
+        fs = d["fields"]
+        has_leaf = any(n == FIELDS["lmssig.leaf"] for a, n in fs)
+        has_h = any(n == "tree_height" for a, n in fs) or any("LmsParameter" in c for c in gf.dep_callees(d))
+        return has_leaf and has_h and any(r["op"] in ("Lt", "Le", "Gt", "Ge") for r in d["binops"])
+    n = len(gf.find_guards(cf, cdep, walk_blocks)) if walk_blocks else 0
+    for f in F.fns.values():
+        out = f.j.get("output", {})
+        if out.get("path") == flow.OPTION and out["args"][0].get("path") == an.T_lmssig and len(f.j.get("inputs", [])) == 1 and core.is_u8_slice_ref(f.j["inputs"][0]):
+            somes = [b for b, d, e in ret_defs(f) if not e]
+
+            def pdep(d):
+                callees = gf.dep_callees(d)
+                return (any("LmsParameter" in c for c in callees) and any("from_be_bytes" in c for c in callees)
+                        and any(r["op"] in ("Lt", "Le", "Gt", "Ge") for r in d["binops"]))
+            n += len(gf.find_guards(f, pdep, somes))
+    return n
+
+
 def traces_to_candidate(lv, org, an):
     """origin() stops at multi-step temporaries: accept `copy of (Continue payload of branch(candidate call))`."""
     if org[0] == "local" and org[1] is not None:
